@@ -2,13 +2,13 @@ SPECIFICATION Spec
 CONSTANTS
   MaxLf = 2
   MaxCalls = 6
-  Names = {"A", "B"}
+  Names = {"A"}
   SetNames = {0, 1}
-  Classes = {"CHANNEL", "ZONE"}
-  OriginRefs = {0, 5}
-  RefFrom = "NONE"
-  RefTo = "NONE"
-  HeaderShare = FALSE
+  Classes = {"ZONE", "PARAMETER"}
+  OriginRefs = {0}
+  RefFrom = "PARAMETER"
+  RefTo = "ZONE"
+  HeaderShare = TRUE
   OkSet = {TRUE, FALSE}
   ForeignRefCheck = TRUE
   HeaderSetCheck = TRUE
@@ -21,8 +21,6 @@ INVARIANT OriginResolves
 INVARIANT Isolation
 INVARIANT Completeness
 INVARIANT ViewUnique
-INVARIANT FlagDiscipline
 INVARIANT CopyNumbersDense
-INVARIANT ProgressTotalCovers
 PROPERTY RejectedIsNoOp
 CHECK_DEADLOCK FALSE
